@@ -81,7 +81,7 @@ def chain_topology(chain: dict, zero_based: bool = False):
     if perm is not None and list(perm) != list(range(n)):
         topo = topo.relabel_edges(dict(zip(range(n), perm)))
     if zero_based:
-        topo = topo.relabel_edges({i - 1: i for i in range(n + 1)})
+        topo = topo.relabel_edges({e: e + 1 for e in topo.edges})
     return topo
 
 
